@@ -722,9 +722,13 @@ func (c *Ctx) Finish() {
 		ev["infrastructure_errors"] = c.infraErr
 	}
 	b, _ := json.MarshalIndent(ev, "", " ")
-	os.MkdirAll(filepath.Join(verifRoot, "evidence"), 0o755)
+	evDir := filepath.Join(verifRoot, "evidence")
+	if d := os.Getenv("VERIF_EVIDENCE_DIR"); d != "" { // development aid (tools/coverage.sh, seeded runs): keep /verif/evidence as it is
+		evDir = d
+	}
+	os.MkdirAll(evDir, 0o755)
 	if strings.HasPrefix(c.Prop, "C") { // evidence files exist for properties only (SELFTEST prints its result)
-		os.WriteFile(filepath.Join(verifRoot, "evidence", c.Prop+".json"), append(b, '\n'), 0o644)
+		os.WriteFile(filepath.Join(evDir, c.Prop+".json"), append(b, '\n'), 0o644)
 	}
 	if os.Getenv("VERIF_KEEP") == "" {
 		os.RemoveAll(c.Work)
